@@ -783,6 +783,9 @@ package gtab
 //@   ensures (next == -1) == !has(l.Cov, old(ctx.seq[a].GID))
 //@   ensures forall i int :: 0 <= i && i < len(ctx.seq) ==> ctx.seq[i].GID == old(ctx.seq[i].GID) && ctx.seq[i].XOffset == old(ctx.seq[i].XOffset)
 //@   ensures forall i int :: 0 <= i && i < len(ctx.seq) && i != a ==> ctx.seq[i].YOffset == old(ctx.seq[i].YOffset) && ctx.seq[i].Advance == old(ctx.seq[i].Advance)
+// a NULL (zero) anchor means the glyph has no such anchor: nothing is attached there (defect F42 found and fixed here)
+//@   ensures next >= 0 && l.Records[l.Cov[old(ctx.seq[a].GID)]].Entry.X == 0 && l.Records[l.Cov[old(ctx.seq[a].GID)]].Entry.Y == 0 ==> ctx.seq[a].YOffset == old(ctx.seq[a].YOffset)
+//@   ensures next >= 0 && l.Records[l.Cov[old(ctx.seq[a].GID)]].Exit.X == 0 && l.Records[l.Cov[old(ctx.seq[a].GID)]].Exit.Y == 0 ==> ctx.seq[a].Advance == old(ctx.seq[a].Advance)
 //@   modifies ctx.seq[*]
 
 // Mark-to-ligature attachment (GPOS lookup type 5) is read by the library but
